@@ -4,6 +4,7 @@ import CstModel.Proofs.Walk
 import CstModel.Proofs.TokenSpec
 import CstModel.Proofs.BackN
 import CstModel.Props.Gen
+import CstModel.Props.GenIter
 open Cst.C03
 #print axioms parent_child
 #print axioms ancestorsOf_spec
@@ -44,3 +45,5 @@ open Cst.C03
 #print axioms Cst.Gen.not_as_ref
 #print axioms Cst.Gen.not_cloned
 #print axioms Cst.Gen.walk_map
+#print axioms Cst.Gen.it_new
+#print axioms Cst.Gen.it_next
